@@ -22,24 +22,29 @@ WantExtReq(p) == p.ku # <<>> \/ p.sans # <<>> \/ p.eku # <<>> \/ p.custom # <<>>
 
 CountAttr(attrs, oid) == Cardinality({i \in DOMAIN attrs : attrs[i].oid = oid})
 
-(* the caller's attributes, i.e. everything except the extension request rcgen adds itself *)
-CallerAttrs(o) == SelectSeq(o.attrs, LAMBDA t : t.oid # OidExtReq)
-
-(* multiset equality of (oid, values) pairs *)
-SameAttrMultiset(given, seen) ==
-  /\ Len(given) = Len(seen)
+(* every caller-supplied (oid, values) pair is found as often as it was given, and nothing else is there *)
+(* besides the one attribute rcgen generates itself (`own` = 0 or 1)                                      *)
+SameAttrMultiset(given, seen, own) ==
+  /\ Len(seen) = Len(given) + own
   /\ \A i \in DOMAIN given :
-       Cardinality({j \in DOMAIN given : given[j] = given[i]}) =
+       Cardinality({j \in DOMAIN given : given[j] = given[i]}) <=
        Cardinality({j \in DOMAIN seen : seen[j].oid = given[i].oid /\ seen[j].valuesRaw = given[i].values})
+
+(* a caller may hand in an extensionRequest attribute of his own (the sweeps use one with an empty extension list); *)
+(* the request rcgen generates from the parameters is then the non-empty one                                       *)
+CallerExtReqs(a) == Cardinality({i \in DOMAIN a.attrs : a.attrs[i].oid = OidExtReq})
+GeneratedExtReq(o) == IF \E i \in DOMAIN o.extReqs : o.extReqs[i] # <<>>
+                      THEN o.extReqs[CHOOSE i \in DOMAIN o.extReqs : o.extReqs[i] # <<>>] ELSE <<>>
 
 ReqCsrOk(a, o) ==
   LET p == a.params
-      x == IF Len(o.extReqs) >= 1 THEN o.extReqs[1] ELSE <<>>
+      x == GeneratedExtReq(o)
   IN {
   <<"C07.refused_if_unsupported_field_set", ~CsrUnsupported(p)>>,
   <<"C07.subject_eq", o.subject = p.dn /\ ~o.subjectMulti>>,
   <<"C07.spki_eq_requester_key", o.spki.raw = a.key.spki>>,
-  <<"C07.ext_request_iff_any_requested", Len(o.extReqs) = (IF WantExtReq(p) THEN 1 ELSE 0)>>,
+  <<"C07.ext_request_iff_any_requested", Len(o.extReqs) = (IF WantExtReq(p) THEN 1 ELSE 0) + CallerExtReqs(a)
+                                         /\ (WantExtReq(p) <=> x # <<>>)>>,
   <<"C07.ku_iff_and_value", /\ Count(x, OidKu) = (IF WantKu(p) THEN 1 ELSE 0)
                             /\ WantKu(p) /\ Has(x, OidKu) =>
                                  Ext(x, OidKu).kind = "ku" /\ SeqRange(Ext(x, OidKu).bits) = SeqRange(p.ku)>>,
@@ -57,12 +62,12 @@ ReqCsrOk(a, o) ==
   <<"C07.no_unrequested_ext", \A i \in DOMAIN x : x[i].oid \in
                                (IF WantSan(p) THEN {OidSan} ELSE {}) \cup (IF WantKu(p) THEN {OidKu} ELSE {}) \cup
                                (IF WantEku(p) THEN {OidEku} ELSE {}) \cup CustomOids(p)>>,
-  <<"C07.attributes_byte_identical", SameAttrMultiset(a.attrs, CallerAttrs(o))>>,
+  <<"C07.attributes_byte_identical", SameAttrMultiset(a.attrs, o.attrs, IF WantExtReq(p) THEN 1 ELSE 0)>>,
   <<"C07.openssl_decodes", o.opensslOk>>,
   <<"C07.x509parser_decodes", o.x509pOk>>,
   <<"C05.csr_v0", o.version = 0>>,
   <<"C05.csr_attributes_present", o.attrsPresent>>,
-  <<"C05.csr_at_most_one_ext_request", CountAttr(o.attrs, OidExtReq) <= 1 /\ Len(o.extReqs) <= 1>>,
+  <<"C05.csr_at_most_one_ext_request", CallerExtReqs(a) = 0 => CountAttr(o.attrs, OidExtReq) <= 1 /\ Len(o.extReqs) <= 1>>,
   <<"C04.der_strict", o.derStrict = <<>> >>,
   <<"C04.csr_attributes_sorted", \A i, j \in DOMAIN o.attrs : i < j => LexLe(o.attrs[i].rawb, o.attrs[j].rawb)>>,
   <<"C04.ku_minimal_named_bits", Has(x, OidKu) /\ WantKu(p) /\ Ext(x, OidKu).kind = "ku" =>
@@ -81,16 +86,19 @@ ReqCsrOk(a, o) ==
 WithinParserSupport(p) == p.custom = <<>> /\ \A i \in DOMAIN p.eku : p.eku[i] \in StdEkuOids
 
 ReqCsrRoundTrip(a, o) ==
-  LET p == a.params  b == o.back IN {
-  <<"C07.roundtrip_accepts_own_request", WithinParserSupport(p) => b.k = "ok">>,
-  <<"C07.roundtrip_eq", WithinParserSupport(p) /\ b.k = "ok" =>
+  LET p == a.params  b == o.back
+      (* the parser honours a request completely or refuses it: more than one extensionRequest attribute is refused *)
+      supported == WithinParserSupport(p) /\ CallerExtReqs(a) + (IF WantExtReq(p) THEN 1 ELSE 0) <= 1
+  IN {
+  <<"C07.roundtrip_accepts_own_request", supported => b.k = "ok">>,
+  <<"C07.roundtrip_eq", supported /\ b.k = "ok" =>
                           /\ b.subject = p.dn
                           /\ b.sans = p.sans
                           /\ SeqRange(b.ku) = SeqRange(p.ku)
                           /\ SeqRange(b.eku) = SeqRange(p.eku)
                           /\ b.keyRaw = a.key.raw
                           /\ b.alg = a.key.alg>>,
-  <<"C07.roundtrip_unsupported_refused", ~WithinParserSupport(p) => b.k # "ok">>
+  <<"C07.roundtrip_unsupported_refused", ~supported => b.k # "ok">>
   }
 
 (* ---- C06: parsing a request and issuing from it ------------------------------------------------ *)
@@ -139,6 +147,8 @@ ReqCsrIssue(a, out, o) ==
         /\ (a.req.eku # <<>> /\ Has(x, OidEku) => Ext(x, OidEku).kind = "eku" /\ SeqRange(Ext(x, OidEku).oids) = SeqRange(a.req.eku))>>,
     <<"C03.issuer_name_eq_issuer_subject", o.issuerRaw = a.issuerRaw>>,
     <<"C01.sig_verifies_over_embedded_tbs", o.sigOk.ring \in {"ok", "na"} /\ o.sigOk.openssl = "ok">>,
+    <<"C01.inner_alg_eq_outer_alg", o.sigInner.raw = o.sigOuter.raw>>,
+    <<"C01.alg_is_registered_id", a.signerKey.alg \in AlgNames => o.sigOuter.raw = SigAlgId(a.signerKey.alg)>>,
     <<"C04.der_strict", o.derStrict = <<>> >>
   }
 
